@@ -1,13 +1,13 @@
 SPECIFICATION SpecRand
 CONSTANTS
-  Trees <- GTrees
+  Trees <- GTreesBushy
   Voters <- V4
   W <- UnitW
   EqV <- V4
-  LeafBias = FALSE
+  LeafBias = TRUE
   PVUnanimous = FALSE
   MaxPV = 2
   MaxPC = 2
-  Depth = 14
+  Depth = 10
 INVARIANT Dump
 CHECK_DEADLOCK FALSE
